@@ -184,13 +184,14 @@ return:表项地址，若缓冲区已经读取完毕返回NULL
 u8_t *buffergroup::require_buffer_entry(const u8_t id)
 {
   u8_t *result = buflst[id].get_entry();
-  if (result == NULL)
+  while (result == NULL)
   {
     WV_SCHED(1);
     ctrl[id].set_update();
     ctrl[id].wait_ready();
-    if (ctrl[id].cmpstate(READY))
-      result = buflst[id].get_entry();
+    if (!ctrl[id].cmpstate(READY))
+      break; // INV: no more data for this buffer
+    result = buflst[id].get_entry();
   }
   return result;
 }
